@@ -41,6 +41,9 @@ func checkC18(r *Run) {
 	}
 	// the next request's event must not start with the previous request's rejected line
 	ruleBufferPoolClean(r, p, []string{""})
+	if pb := r.Use("B"); pb != nil {
+		ruleA18(r, pb) // under binary_log the request fields (URL, user agent, …) go through the CBOR string appender: header length = payload length at every size (C09's rule)
+	}
 	r.Floor("A11", 2)
 	r.Floor("ISOL", 17)
 	r.Floor("PROXY", 12)
